@@ -37,6 +37,24 @@ def cases(ctx):
                 yield {'r': r, 'words': gen.all_words(['0', '1'], 3)}
     ctx.exhaustive = True
     rng = ctx.rng
+    # same operands under different binary operators, side by side (x.y + (x+y), (x+y).z + (x.y+z), ...): a structural comparison that
+    # forgets the operator would identify them
+    for i in range(60 if not thorough else 600):
+        x = gen.random_regexp(rng, rng.randint(1, 3), Sig)
+        y = gen.random_regexp(rng, rng.randint(1, 3), Sig)
+        z = gen.random_regexp(rng, 1, Sig)
+        ops = ['sum', 'cat']
+        o1, o2 = rng.sample(ops, 2)
+        shape = rng.randint(0, 3)
+        if shape == 0:
+            r = ['sum', [o1, x, y], [o2, x, y]]
+        elif shape == 1:
+            r = ['cat', [o1, x, y], [o2, x, y]]
+        elif shape == 2:
+            r = ['sum', ['cat', ['sum', x, y], z], ['sum', ['cat', x, y], z]]
+        else:
+            r = ['star', ['sum', [o1, x, ['star', y]], [o2, x, ['star', y]]]]
+        yield {'r': r, 'words': gen.all_words(Sig, 4)}
     for i in range(800 if not thorough else 8000):
         Sg = rng.choice([['a', 'b'], ['a'], ['0', '1'], ['a', 'b', 'c']])
         r = gen.random_regexp(rng, rng.randint(2, 12), Sg)
